@@ -13,7 +13,7 @@ VERIF = os.path.dirname(os.path.dirname(os.path.abspath(__file__)))
 def main():
     run = {}
     for line in open(sys.argv[1]):
-        m = re.match(r"^(C\d\d-[A-L]):\s*(.*)$", line.strip())
+        m = re.match(r"^(C\d\d-[A-M]):\s*(.*)$", line.strip())
         if m:
             run[m.group(1)] = m.group(2)
     desc = json.load(open(os.path.join(VERIF, "seeded/DESCRIPTIONS.json")))
@@ -22,7 +22,7 @@ def main():
         m = re.match(r"^\| (C\d\d-[AB]) \| ([^|]+) \|", line)
         if m and m.group(1) not in desc:
             desc[m.group(1)] = m.group(2).strip()
-    rounds = [("A", "B"), ("C", "D"), ("E", "F"), ("G", "H"), ("I", "I"), ("J", "J"), ("K", "K"), ("L", "L")]
+    rounds = [("A", "B"), ("C", "D"), ("E", "F"), ("G", "H"), ("I", "I"), ("J", "J"), ("K", "K"), ("L", "L"), ("M", "M")]
     for i, (x, y) in enumerate(rounds, 1):
         print("**Round %d (%s / %s).**\n" % (i, x, y))
         print("| seed | what it does | rule(s) of its own property that fire |")
